@@ -984,8 +984,8 @@ def rule_confirmed_origin(fx, col):
         if not opens or not cell:
             continue
         for bb, t in b.calls(include_cleanup=False):
-            if not ((t['callee'].get('trait') or '').endswith('ref_cnt::RefCnt') and U.callee_name(t) == 'dec'):
-                continue
+            if not ((t['callee'].get('trait') or '').endswith('ref_cnt::RefCnt') and U.callee_name(t) in ('dec', 'from_ptr')):
+                continue  # (`drop(T::from_ptr(p))` is the other spelling of `T::dec(p)`)
             src = _call_bbs(b, t['args'][0])
             if not (src and src <= {c.bb for c in cell}):
                 continue
